@@ -496,6 +496,10 @@ def m_vec_drain(ex, f, a):
         out = list(v.items); del v.items[:]; return Iter(out)
     lo = r.fields[0] if r.ty in ('Range', 'RangeFrom') else 0
     hi = r.fields[1] if r.ty == 'Range' else (r.fields[0] if r.ty == 'RangeTo' else len(v.items))
+    if is_sym(lo): lo = ex.concretize(lo, 'drain start')
+    if is_sym(hi): hi = ex.concretize(hi, 'drain end')
+    if lo > hi: raise Panic('Vec::drain: slice index starts at %d but ends at %d' % (lo, hi))
+    if hi > len(v.items): raise Panic('Vec::drain: range end index %d out of range for slice of length %d' % (hi, len(v.items)))
     out = v.items[lo:hi]; del v.items[lo:hi]; return Iter(out)
 @exact('Vec::as_slice', 'Vec::as_mut_slice', 'Vec::into_boxed_slice', 'Vec::leak')
 def m_vec_as_slice(ex, f, a): return a[0] if isinstance(a[0], Ref) else ex.deref(a[0])
@@ -612,11 +616,12 @@ def m_slice_join(ex, f, a):
         if i: out.extend(sep)
         out.extend(ex.deref(x).chars)
     return Str(out)
-@pattern(r'^core::slice::<impl \[.*\]>::(windows|chunks)$')
+@pattern(r'^core::slice::<impl \[.*\]>::windows$')
 def m_slice_windows(ex, f, a):
     it = _items(ex, a[0]); n = a[1]
-    if f.endswith('windows'): return Iter([PyVec(it[i:i + n]) for i in range(len(it) - n + 1)])
-    return Iter([PyVec(it[i:i + n]) for i in range(0, len(it), n)])
+    if is_sym(n): n = ex.concretize(n, 'window size')
+    if n == 0: raise Panic('window size must be non-zero')
+    return Iter([PyVec(it[i:i + n]) for i in range(len(it) - n + 1)])
 @pattern(r'^core::slice::<impl \[.*\]>::(starts_with|ends_with)$')
 def m_slice_starts(ex, f, a):
     it, pre = _items(ex, a[0]), _items(ex, a[1])
@@ -659,6 +664,7 @@ def m_slice_chunks(ex, f, a):
     """<[T]>::chunks(n) / chunks_exact(n): consecutive sub-slices of n elements; chunks keeps the shorter remainder, chunks_exact drops it; n == 0 panics"""
     it = _items(ex, a[0]); n = a[1]
     if is_sym(n): n = ex.concretize(n, 'chunk size')
+    n = int(n)
     if n == 0: raise Panic('chunk size must be non-zero')
     exact_ = f.rsplit('::', 1)[1].startswith('chunks_exact'); out = []
     for i in range(0, len(it), n):
